@@ -20,6 +20,12 @@ CHECKS = {
  "C06": ("exploration", "property-based testing plus corpus sweep: closure checker (validity predicate over every exported package) and acceptance by from_proto and the vlsirtools netlisters",
          "Every package obtained from generated designs, the examples and built-in generators over their parameter ranges, and PDK-compiled designs is checked for closure (names, definition order, targets, port sets, bit ranges, widths) and must be accepted by from_proto and the spice and spectre netlisters.",
          "Closure rules read from the VLSIR schema; netlisters are not run on packages that reference hdl21.primitives (they reject those by design)."),
+ "C07": ("exploration", "history-based property testing: enumerated and Hypothesis-sampled histories of construct/elaborate/to_proto/netlist calls per generated design DAG, each in a pristine process; oracle = byte equality with the baseline history",
+         "For generated design DAGs every order of single-module elaborations (lazy and eager construction), every ordered pair as one list call, netlist calls and sampled longer mixed histories are run in separate pristine processes; the final package must be byte-identical to the one-shot export, exporting again must change nothing and elaborated modules must refuse additions.",
+         "DAGs of at most 5 modules; orders complete for n<=4, 60 sampled orders for n=5; netlister refusals inside a history are ignored."),
+ "C08": ("fault_enumeration", "fault-injection property testing: enumerated (fault, continuation) pairs per generated design, faults injected through the public custom-pass-list API, C02 design faults and raising generator bodies; oracle = differential against a pristine process",
+         "Every (pass position, module) and every (rewriting pass, module, k-th helper call) of each generated design is made to fail, as are one design fault per class and generator bodies/naming; after each failure five continuations run in the same process and whatever they return must be byte-identical to a pristine process's result, retries must repeat the original error, unrelated and non-offending designs must export normally, failed generator calls must run again.",
+         "Faults are injected with subclasses of the real passes (own class-level caches); 'repair' of an injected fault is switching it off; raising forever for the offending module is accepted."),
  "C09": ("exploration", "property-based testing of generator memoisation and naming over generated param-class shapes and adversarial value pairs, with a body call counter and cross-process name comparison",
          "For generated param-class shapes and pairs of value assignments (biased to near-collisions) fresh generators are declared in pristine processes: equal parameters must give the identical module with one body run (also after the result was dropped and garbage collected), unequal ones distinct modules with distinct names; a parent instantiating both must export; names must not change after first return nor differ between three process histories.",
          "Parameter equality = Python equality of validated instances cross-checked with exact values; Module/Generator-valued parameters come from pools of distinctly named objects; sampled."),
